@@ -101,6 +101,8 @@ def gen_image(ch, galactic=False, small=False):
     # BMAJ/BMIN), noise/background forced as numbers or read from (constant) map files
     spec["beam_param"] = bool(ch.chance("beam_param", 1, 6))
     spec["aux_files"] = bool(ch.chance("aux_files", 1, 5))
+    # a position-dependent psf map (imgpsf=): the restoring beam is 20 % larger in one half of the field
+    spec["psf_map"] = bool(ch.chance("psf_map", 1, 8))
     spec["noise_seed"] = ch.draw("noise_seed", 1 << 20)
     spec["noise"] = 1.0 if not ch.chance("noiseless", 1, 8) else 0.02
     rows, cols = spec["rows"], spec["cols"]
@@ -217,6 +219,17 @@ def write_image(spec, path):
     h["BUNIT"] = "Jy/beam"
     h["EQUINOX"] = 2000.0
     hdu.writeto(path, overwrite=True)
+    if spec.get("psf_map"):
+        # planes: major axis, minor axis (degrees), position angle; same sky grid as the image
+        a = np.full((spec["rows"], spec["cols"]), spec["beam_pix"] * pix * spec.get("beam_ratio", 1.0))
+        b = np.full((spec["rows"], spec["cols"]), spec["beam_pix"] * pix)
+        a[:, spec["cols"] // 2:] *= 1.2
+        b[:, spec["cols"] // 2:] *= 1.2
+        psf = fits.PrimaryHDU(np.stack([a, b, np.full_like(a, spec.get("bpa", 0.0))]))
+        for key in ("CTYPE1", "CTYPE2", "CRVAL1", "CRVAL2", "CRPIX1", "CRPIX2", "CDELT1", "CDELT2", "CD1_1", "CD1_2", "CD2_1", "CD2_2"):
+            if key in h:
+                psf.header[key] = h[key]
+        psf.writeto(path[:-5] + "_psf.fits", overwrite=True)
     if spec.get("aux_files"):
         # constant noise / background maps with the image's header, next to the image
         plane = np.zeros((spec["rows"], spec["cols"]), dtype=np.float32)
@@ -237,6 +250,8 @@ def finder_kwargs(spec, path):
         # tuple, load_globals of a Beam; only the latter works)
         from AegeanTools.wcs_helpers import Beam
         kw["beam"] = Beam(spec["beam_pix"] * pix * spec.get("beam_ratio", 1.0), spec["beam_pix"] * pix, spec.get("bpa", 0.0))
+    if spec.get("psf_map"):
+        kw["imgpsf"] = path[:-5] + "_psf.fits"
     if spec.get("aux_files"):
         kw["rmsin"], kw["bkgin"] = path[:-5] + "_rms.fits", path[:-5] + "_bkg.fits"
     else:
